@@ -78,6 +78,11 @@ func (clonesim) Generate(rng *Rand, prop, tier string) *Script {
 		add(Op{K: "kill", A: victim})
 		add(Op{K: "adv", A: int64(rng.Range(100, 3000))})
 		if rng.Bool(50) {
+			// the rebuild is held for a few seconds after PrepareRebuild: the replica stays WO (listed, chain
+			// switched, data not copied) long enough for the clone to look while the healthy ones are gone
+			add(Op{K: "hook", A: victim, B: 0, C: 1})
+		}
+		if rng.Bool(50) {
 			add(Op{K: "replace", A: victim})
 		} else {
 			add(Op{K: "restart", A: victim})
